@@ -58,7 +58,7 @@ int __wrap_vasprintf(char **out, const char *f, va_list ap)
 #define CANON_FD 1000
 
 enum { K_N, K_E, K_Z };
-struct ent { int kind; size_t n; };
+struct ent { int kind; size_t n; int err; }; /* K_E: err = the errno the call fails with (E: EIO, I: EINTR, A: EAGAIN) */
 static struct ent *sch;
 static size_t nsch, isch;
 
@@ -105,7 +105,7 @@ static void add_call(size_t off, size_t req, long len)
 
 static struct ent next_ent(void)
 {
-	struct ent full = {K_N, (size_t)-1};
+	struct ent full = {K_N, (size_t)-1, 0};
 	return isch < nsch ? sch[isch++] : full;
 }
 
@@ -126,7 +126,7 @@ ssize_t __wrap_write(int fd, const void *buf, size_t count)
 	if (e.kind == K_E)
 	{
 		add_call(off, count, -1);
-		errno = EIO;
+		errno = e.err;
 		return -1;
 	}
 	size_t d = e.kind == K_Z ? 0 : (e.n < count ? e.n : count);
@@ -162,7 +162,7 @@ ssize_t __wrap_read(int fd, void *buf, size_t count)
 	if (e.kind == K_E)
 	{
 		add_call(0, count, -1);
-		errno = EIO;
+		errno = e.err;
 		return -1;
 	}
 	size_t k = e.kind == K_Z ? 0 : (e.n < count ? e.n : count);
@@ -208,8 +208,10 @@ static void parse_sched(const char *s)
 	sch = (struct ent *)malloc(cap * sizeof(*sch));
 	while (*s)
 	{
-		struct ent e = {K_N, 0};
-		if (*s == 'E') { e.kind = K_E; s++; }
+		struct ent e = {K_N, 0, 0};
+		if (*s == 'E') { e.kind = K_E; e.err = EIO; s++; }
+		else if (*s == 'I') { e.kind = K_E; e.err = EINTR; s++; }
+		else if (*s == 'A') { e.kind = K_E; e.err = EAGAIN; s++; }
 		else if (*s == 'Z') { e.kind = K_Z; s++; }
 		else
 		{
